@@ -371,16 +371,7 @@ func redactPipelineStage(stage interface{}, redactFieldNames bool, keyPath []str
 					}
 					continue
 				case Namespace:
-					if redactNamespaces {
-						switch vTyped := v.(type) {
-						case string:
-							newMap.Set(redactedKey, HashName(vTyped))
-						default:
-							newMap.Set(redactedKey, v)
-						}
-					} else {
-						newMap.Set(redactedKey, v)
-					}
+					newMap.Set(redactedKey, redactNamespaceArgument(v))
 					continue
 				case Exempt:
 					newMap.Set(redactedKey, v)
@@ -464,16 +455,7 @@ func redactPipelineStage(stage interface{}, redactFieldNames bool, keyPath []str
 									}
 									continue
 								case Namespace:
-									if redactNamespaces {
-										switch subVTyped := subV.(type) {
-										case string:
-											newSubMap.Set(subK, HashName(subVTyped))
-										default:
-											newSubMap.Set(subK, subV)
-										}
-									} else {
-										newSubMap.Set(subK, subV)
-									}
+									newSubMap.Set(subK, redactNamespaceArgument(subV))
 									continue
 								case Exempt:
 									newSubMap.Set(subK, subV)
@@ -544,6 +526,32 @@ func redactPipelineStage(stage interface{}, redactFieldNames bool, keyPath []str
 		}
 		// a literal that is a direct element of an operator array, e.g. {$and: ["x", ...]}
 		return redactArrayValues([]any{stage}, redactFieldNames, inSearchStage, false, keyPath)[0]
+	}
+}
+
+// redactNamespaceArgument pseudonymises the argument of a Namespace-typed operator when
+// namespace redaction is on. The argument is a collection name or, for cross-database
+// targets ($merge.into, $lookup.from, $out), a document whose "db" and "coll" members hold
+// the names; every other member and the key order are kept.
+func redactNamespaceArgument(v interface{}) interface{} {
+	if !redactNamespaces {
+		return v
+	}
+	switch vTyped := v.(type) {
+	case string:
+		return HashName(vTyped)
+	case *orderedmap.OrderedMap[string, any]:
+		redacted := orderedmap.NewOrderedMap[string, any]()
+		for el := vTyped.Front(); el != nil; el = el.Next() {
+			if name, ok := el.Value.(string); ok && (el.Key == "db" || el.Key == "coll") {
+				redacted.Set(el.Key, HashName(name))
+			} else {
+				redacted.Set(el.Key, el.Value)
+			}
+		}
+		return redacted
+	default:
+		return v
 	}
 }
 
